@@ -76,9 +76,11 @@ def loop : Nat → Chunk → Bytes → Except Err (Chunk × Bytes)
       | .error e => .error e
       | .ok (c', raw') => loop fuel c' raw'
 
-/-- `ChunkParser.parse(raw)`: returns the unconsumed remainder -/
+/-- `ChunkParser.parse(raw)`: returns the unconsumed remainder.  Fuel: every
+    `process` call that does not end the loop shortens stash + input
+    (`PxProofs/ChunkLemmas.lean`, `loop_fuel`), so this bound is never reached. -/
 def parse (c : Chunk) (raw : Bytes) : Except Err (Chunk × Bytes) :=
-  loop (raw.length + 1) c raw
+  loop (c.chunk.length + raw.length + 1) c raw
 
 /-- `ChunkParser.to_chunks(raw, chunk_size)`; `chunk_size = 0` raises ValueError
     in Python (`range()` step 0) and is rejected here. -/
